@@ -96,7 +96,8 @@ def _yes(value):
 
 # The alphabet of profiles.  NEVER hand these dictionaries to the library (addProfile works on the caller's dictionary).
 RAW = {
-    'P1': ({'x-one': r'{int}', 'x-len': r'{length}|auto', 'x-col': r'{color}', 'x-fn': _yes}, {}),  # new properties
+    # new properties; x-cs is a validator object with the pattern text the registry builds for x-fn of P2, but case-sensitive
+    'P1': ({'x-one': r'{int}', 'x-len': r'{length}|auto', 'x-col': r'{color}', 'x-fn': _yes, 'x-cs': cssutils.util.LazyRegex('^(?:boom|maybe)$')}, {}),
     'P2': ({'color': r'abc|{namedcolor}', 'width': r'wide|{length}', 'x-fn': r'boom|maybe'}, {}),  # redefines existing properties (and one of P1: a function there)
     # overrides a token macro, and uses a standard macro ({integer} = {int}) that is built from it
     'P3': ({'x-three': r'{int}|{m3}', 'x-three-i': r'{integer}|none', 'x-three-c': r'{color}'}, {'int': r'q\d+', 'm3': r't'}),
@@ -123,7 +124,7 @@ BATTERY = [
     ('x-one', '1'), ('x-one', 'q1'), ('x-one', 'a'),
     ('x-len', '1px'), ('x-len', '1zz'), ('x-len', 'auto'),
     ('x-col', 'red'), ('x-col', 'currentcolor'), ('x-col', 'rgba(1,2,3,.5)'),
-    ('x-fn', 'yes'), ('x-fn', 'no'), ('x-fn', 'boom'), ('x-fn', 'maybe'),
+    ('x-fn', 'yes'), ('x-fn', 'no'), ('x-fn', 'boom'), ('x-fn', 'maybe'), ('x-fn', 'MAYBE'), ('x-cs', 'maybe'), ('x-cs', 'MAYBE'),
     ('x-three', '1'), ('x-three', 'q1'), ('x-three', 't'), ('x-three-i', '1'), ('x-three-i', 'q1'), ('x-three-i', 'none'),
     ('x-three-c', 'red'), ('x-three-c', 'rgb(1,2,3)'), ('x-three-c', 'rgb(q1,q2,q3)'),
     ('x-four', '1px'), ('x-four', '1zz'),
